@@ -643,7 +643,7 @@ def r02d(ctx):
 
 @rule(
     "R02e",
-    ["C02", "C06"],
+    ["C02", "C06", "C09"],
     """set_index(sorted=True) REFUSES PARTITIONS THAT ARE NOT IN ORDER - both ends: `_compute_partition_stats` trusts the caller's claim
     that the data is sorted and only checks the per-partition summaries. Partitions are "sorted relative to each other" only if BOTH the
     minima AND the maxima of the non-empty partitions are non-decreasing; with the minima alone a partition nested inside its neighbour
@@ -671,6 +671,25 @@ def r02e(ctx):
         ctx.ok(cid, mod.loc(fn), "unsorted minima OR unsorted maxima raise")
     else:
         ctx.bad(cid, mod.loc(fn), f"the 'partitions are not sorted' refusal tests only {sorted(kinds) or 'nothing'}: a partition whose range is nested in / interleaved with its neighbour's passes, set_index(sorted=True) publishes divisions built from the minima and rows above the next minimum lie outside their partition's divisions (loc and merges lose them)")
+    # (b) one (min, max) pair per PARTITION unless overlaps are to be resolved: the caller builds divisions of length npartitions + 1 from
+    # the mins; the summaries of the non-empty partitions only are shorter, so they may be returned only on the allow_overlap path (where
+    # ResolveOverlappingDivisions re-partitions anyway)
+    ao = next((a.arg for a in fn.args.args if "overlap" in a.arg), None)
+    if ao is not None:
+        for p in flow.returns(fn):
+            v = p.stmt.value
+            if not (isinstance(v, ast.Tuple) and v.elts):
+                continue
+            first = ast.unparse(defs.expand(v.elts[0], at=p.stmt))
+            short = "non_empty" in ast.unparse(v.elts[0]) or " if " in first
+            if not short:
+                continue
+            under = any(pol and ast.unparse(t) == ao for t, pol in flow.facts(p))
+            cid2 = "_collection._compute_partition_stats:one-summary-per-partition"
+            if under:
+                ctx.ok(cid2, mod.loc(p.stmt), "the shortened summaries are returned only when overlaps are resolved afterwards")
+            else:
+                ctx.bad(cid2, mod.loc(p.stmt), f"`{unparse(p.stmt)}` returns the summaries of the NON-EMPTY partitions on a path where `{ao}` is not set: set_index(sorted=True) builds its divisions from them, so a frame with an empty partition gets fewer divisions than partitions - the node reports a partition count its layer does not define (missing keys / IndexError)")
 
 
 @rule(
